@@ -214,4 +214,13 @@ PROPERTIES = {
         "design_ref": "DESIGN.md §3 C07",
         "assumptions": ["quiche 0.29.3 is a conforming RFC 9000/9001 implementation", "small-scope hypothesis"],
     },
+    "C20": {
+        "title": "dc: streams deliver bytes exactly, or fail promptly with an error",
+        "steps": [{"kind": "bin", "engine": "dcmc", "families": ["C20"]}],
+        "technique": "deviation-bounded exploration of real s2n-quic-dc client/server stream pairs over a harness-owned simulated UDP network (bach, virtual time)",
+        "level_text": "A real stream::testing::{Client, Server} pair runs over bach's simulated UDP; the harness owns the network through its own queue allocator and takes one decision per datagram index (deliver / drop / duplicate 100 us later / delay 3x; blackhole from index i = peer vanished; forget = server map drop_state at index i). Iterative deviation bounding: k <= 2 where the fault-free run has <= 40 (quick) / 80 (thorough) datagrams, k <= 1 otherwise. Scenario grid: 6 operation orders (write-shutdown-read, concurrent read/write, shutdown before the peer finished reading, drop writer / reader mid-stream, write_all_from_fin) x request/response sizes {1, 1000, 9000, 40000} x read buffers {1, 100, 64 KiB} x MTU {1250, 1500, 9000, 16000, 16384, 32000}. Oracle: PRF content at every read, never more than the peer wrote, clean EOF only at the total where the peer's write half ended, nothing after EOF or an error, under finite faults both directions complete, after blackhole / forget everything resolves with an error within the idle timeout + 2 s, no task pending at the 100 s virtual horizon, no stall, no panic.",
+        "level_note": "UDP transport only: bach has no TCP and the dc TCP path runs on real tokio sockets and OS threads outside any scheduler the harness controls - the shared send::State / recv::State machines are exercised by the UDP runs. One genuine defect found through this engine (BBR minimum window overflow for MTU >= 16384) was repaired by a fix: commit. Allowance: when the client drops its read half with unread data the stream is reset in both directions (like TCP close with unread data).",
+        "design_ref": "DESIGN.md §3 C20",
+        "assumptions": ["small-scope hypothesis", "bach's simulated UDP stands for the production sockets"],
+    },
 }
